@@ -483,6 +483,18 @@ func (e *Engine) callMods(fr *Frame, fn *ssa.Function, x ssa.CallInstruction, de
 			}
 			return
 		}
+		if _, ok := libSpecs[name]; ok && readOnlyStoreOp(name) {
+			// modelled iteration (Walk): only the callback writes
+			for _, a := range cc.Args {
+				if mc, ok := a.(*ssa.MakeClosure); ok {
+					fr.modsOf(mc.Fn.(*ssa.Function), nil, depth+1, mods, false)
+					for _, b := range mc.Bindings {
+						addType(b.Type())
+					}
+				}
+			}
+			return
+		}
 		if _, ok := libSpecs[name]; ok {
 			return // specs without a libMods entry are pure w.r.t. the modelled heaps
 		}
